@@ -340,13 +340,20 @@ def run(ctx):
     if eargs:
         vlib.run(eargs, timeout=3000)
         ex = json.load(open(os.path.join(ctx.work, "explore.json")))
+        ex_reported = 0
         for fl in ex.get("failures", []):
             viol_payload = {"kind": "exploration-" + fl.get("class", "failure"), "explore_kind": fl.get("kind", "parse"),
                             "input_hex": fl.get("input_hex", ""), "lit_kind": fl.get("lit_kind"), "opts": fl.get("opts"),
                             "what": fl.get("what", ""),
                             "note": "direct exploration of the implementation (parser panic / position invariant / "
                                     "scanner-literal-parser disagreement); input_hex is the failing input"}
-            report(viol_payload)
+            # exploration failures carry a failing input: always record the first few,
+            # even when the differential part already used up its replay budget
+            viol += 1
+            ex_reported += 1
+            if ex_reported <= 3:
+                viol_payload["replay"] = "bin/check C09 --replay <this file>"
+                ctx.violation(viol_payload)
         for cls, info in sorted(ex.get("known_candidates", {}).items()):
             if cls == "hash-string-content-starts-with-two-quotes":
                 ctx.known_finding(KNOWN_AUTOHASH)
